@@ -68,7 +68,8 @@ def run_property(pid, tier, seed, only, spec):
             chk.undecided.append(f"{group}: zero obligations selected by /{rx}/ (vacuous)")
             continue
         res = solve.discharge(obs, timeout_ms=timeout)
-        chk.record(res, group, replayer=spec.get('replayer'), tolerate_unknown=spec.get('tolerate_unknown'))
+        from contracts import replay_lattice
+        chk.record(res, group, replayer=spec.get('replayer', replay_lattice.replayer), tolerate_unknown=spec.get('tolerate_unknown'))
     # vacuity canaries: per source one deliberately false clause on a returning path must be refuted
     for source, reps in built.items():
         for fv, rep in reps[:2]:
